@@ -570,13 +570,11 @@ func DumpTable(p *Program, spec string, resIdx int) {
 	}
 }
 
-
 // isTailOf: the call's (single) result is exactly what the return returns, and the call is
 // in the return's block (a tail call `return f(x)`).
 func isTailOf(r *ssa.Return, c ssa.CallInstruction) bool {
 	return c.Block() == r.Block() && len(r.Results) == 1
 }
-
 
 func isBoolPhi(phi *ssa.Phi) bool {
 	b, ok := phi.Type().Underlying().(*types.Basic)
@@ -612,7 +610,6 @@ func andDNF(a, b DNF) DNF {
 	}
 	return out
 }
-
 
 // ---- on-demand expansion of atoms that are calls to repository helpers ----
 
